@@ -78,7 +78,11 @@ pub fn apply_one(ev: &Value) -> Vec<Value> {
                     W::Io(_) => "Io",
                 };
                 let _ = std::fs::remove_file(&p);
-                return json!({"tag":"write_err","kind":kind,"msg":e.to_string()});
+                let name = match &e {
+                    W::InvalidConstraintType { name, .. } => name.clone(),
+                    _ => String::new(),
+                };
+                return json!({"tag":"write_err","kind":kind,"name":name,"msg":e.to_string()});
             }
             let mut text = String::new();
             if let Ok(f) = std::fs::File::open(&p) {
